@@ -158,6 +158,14 @@ def model(ex, path, cal, recv, args, node, st):
     return None
 
 
+def _mentions(t, sub):
+    if t == sub:
+        return True
+    if isinstance(t, tuple):
+        return any(_mentions(x, sub) for x in t if isinstance(x, tuple))
+    return False
+
+
 def _concrete_elems(base):
     if base[0] == "app" and base[1] == "array":
         return base[2]
@@ -311,6 +319,19 @@ def drive(ex, name, it, args, node, st):
             out_elems.append(v)
         if ok and len(cur.eff) == n_eff:
             return [(cur, ("val", app("array", *out_elems)))]
+    if name == "collect" and base[0] == "app" and base[1] == "repeat" and len(flags) == 1 and isinstance(flags[0], tuple) and flags[0][0] == "take":
+        return [(st, ("val", app("vec_repeat", base[2][0], flags[0][1])))]
+    if (name == "collect" and len(flags) == 1 and isinstance(flags[0], tuple) and flags[0][0] == "map" and base[0] == "ctor"
+            and (base[1] or "").endswith("Range") and dict(base[3]).get("start") == lit(0)):
+        # (0..n).map(|_| <pure, element-independent>).collect()  ==  vec![value; n]
+        probe = State(dict(st.env), [], dict(st.fields), dict(st.facts))
+        el = ("sym", next(ex.counter), "elem")
+        r = _apply(ex, flags[0][1], (el,), probe)
+        if len(r) == 1 and r[0][1][0] == "val" and not r[0][0].eff and not _mentions(r[0][1][1], el) and not is_result_ty(ex, node):
+            return [(st, ("val", app("vec_repeat", r[0][1][1], dict(base[3]).get("end"))))]
+    if name == "collect" and flags and all(isinstance(f, tuple) and f[0] == "chain" for f in flags) and orient == "fwd":
+        parts = [base] + [(f[1][1] if f[1][0] == "iter" and f[1][2] == "fwd" and not f[1][3] else f[1]) for f in flags]
+        return [(st, ("val", app("concat", *parts)))]
     loop_id = node.get("id", 0) * 1000 + 7
     body_st = State(dict(st.env), [], dict(st.fields), dict(st.facts))
     elem = ("sym", next(ex.counter), "elem")
